@@ -15,6 +15,7 @@ def model_dict(m):
         if decl.arity() != 0: continue
         v = m[decl]
         if z3.is_bv_value(v): d[decl.name()] = v.as_long()
+        elif z3.is_int_value(v): d[decl.name()] = v.as_long()
         elif z3.is_rational_value(v): d[decl.name()] = str(v.as_fraction())
         elif z3.is_algebraic_value(v): d[decl.name()] = str(v.approx(20).as_fraction())
         elif z3.is_true(v) or z3.is_false(v): d[decl.name()] = bool(z3.is_true(v))
@@ -81,10 +82,16 @@ def parse_model(out):
     return d
 
 
-def prove(pc, hyp, goal, timeout_s=10, logic=None, portfolio=False, fresh=True):
+def prove(pc, hyp, goal, timeout_s=10, logic=None, portfolio=False, fresh=True, order_only=False):
     """returns (status, model, seconds, solver) ; status unsat = goal holds.
     in-process z3 with the logic-specific tactic first; on unknown (portfolio=True) the external binaries"""
     assertions = list(pc) + list(hyp) + [z3.Not(goal)]
+    if logic == 'QF_BV' and order_only:
+        oa = order_abstract(assertions)
+        if oa is not None:
+            r, m, dt = check_api(oa, timeout_s, 'QF_LIA')
+            if r == 'unsat': return r, None, dt, 'z3-5.1(api, signed-order abstraction to QF_LIA)'
+            if r == 'sat': m = {k[2:]: (v & 0xffffffffffffffff if isinstance(v, int) else v) for k, v in (m or {}).items() if k.startswith('i!')}; return r, m, dt, 'z3-5.1(api, order abstraction)'
     try:
         r, m, dt = check_api(assertions, timeout_s, logic)
     except z3.Z3Exception:
@@ -101,3 +108,46 @@ def prove(pc, hyp, goal, timeout_s=10, logic=None, portfolio=False, fresh=True):
             r2, m, dt2 = run_cli(binary, txt, timeout_s, want_model=True); tot += dt2
         if r != 'unknown': return r, m, tot, binary
     return 'unknown', None, tot, 'portfolio'
+
+
+# ---- signed-order abstraction: a BV formula built only from variables, constants, ite, = and signed comparisons is
+#      equisatisfiable with the same formula over integers confined to the signed range (order embedding), which the
+#      arithmetic solver decides by difference reasoning instead of bit-blasting comparator networks.
+_ORD = {z3.Z3_OP_SLEQ: lambda a, b: a <= b, z3.Z3_OP_SLT: lambda a, b: a < b, z3.Z3_OP_SGEQ: lambda a, b: a >= b, z3.Z3_OP_SGT: lambda a, b: a > b}
+
+
+def order_abstract(assertions):
+    cache = {}; ranges = {}
+
+    def tr(e):
+        k = e.get_id()
+        if k in cache: return cache[k]
+        r = tr0(e); cache[k] = r; return r
+
+    def tr0(e):
+        if z3.is_bv(e):
+            w = e.size()
+            if z3.is_bv_value(e):
+                v = e.as_long(); return z3.IntVal(v - (1 << w) if v >> (w - 1) else v)
+            if z3.is_const(e) and e.decl().kind() == z3.Z3_OP_UNINTERPRETED:
+                x = z3.Int('i!' + e.decl().name()); ranges[e.decl().name()] = z3.And(x >= -(1 << (w - 1)), x < (1 << (w - 1))); return x
+            if z3.is_app_of(e, z3.Z3_OP_ITE): return z3.If(tr(e.arg(0)), tr(e.arg(1)), tr(e.arg(2)))
+            raise ValueError('not order-only: ' + e.decl().name())
+        if z3.is_bool(e):
+            if z3.is_true(e) or z3.is_false(e): return e
+            kd = e.decl().kind()
+            if kd in _ORD: return _ORD[kd](tr(e.arg(0)), tr(e.arg(1)))
+            if kd == z3.Z3_OP_EQ or kd == z3.Z3_OP_DISTINCT:
+                a, b = tr(e.arg(0)), tr(e.arg(1)); return (a == b) if kd == z3.Z3_OP_EQ else (a != b)
+            if kd == z3.Z3_OP_AND: return z3.And([tr(c) for c in e.children()])
+            if kd == z3.Z3_OP_OR: return z3.Or([tr(c) for c in e.children()])
+            if kd == z3.Z3_OP_NOT: return z3.Not(tr(e.arg(0)))
+            if kd == z3.Z3_OP_ITE: return z3.If(tr(e.arg(0)), tr(e.arg(1)), tr(e.arg(2)))
+            if kd == z3.Z3_OP_IMPLIES: return z3.Implies(tr(e.arg(0)), tr(e.arg(1)))
+            raise ValueError('not order-only: ' + e.decl().name())
+        raise ValueError('sort')
+    try:
+        out = [tr(a) for a in assertions]
+    except ValueError:
+        return None
+    return out + list(ranges.values())
